@@ -19,7 +19,10 @@ fn fmt(text: &str, cfg: &LuaFormatConfig) -> Result<String, String> {
 #[derive(Clone, Debug)]
 struct Viol {
     prop: &'static str,
-    signature: String,
+    /// class of the failure (what differs, where)
+    class: String,
+    /// for failures under the default configuration: the construct at the failing position
+    construct: String,
     what: String,
 }
 
@@ -31,7 +34,7 @@ fn check(text: &str, cfg: &LuaFormatConfig, want: &str) -> (Vec<Viol>, bool) {
     let o1 = match fmt(text, cfg) {
         Ok(o) => o,
         Err(e) => {
-            out.push(Viol { prop: "C05", signature: "format-panic".into(), what: format!("formatter panicked: {e}") });
+            out.push(Viol { prop: "C05", class: "format-panic".into(), construct: msg_class(&e), what: format!("formatter panicked: {e}") });
             return (out, valid);
         }
     };
@@ -39,7 +42,8 @@ fn check(text: &str, cfg: &LuaFormatConfig, want: &str) -> (Vec<Viol>, bool) {
         if o1 != text && want != "C06" {
             out.push(Viol {
                 prop: "C05",
-                signature: "errors-not-returned-unchanged".into(),
+                class: "errors-not-returned-unchanged".into(),
+                construct: String::new(),
                 what: "input has syntax errors but the formatter changed it".into(),
             });
         }
@@ -55,7 +59,8 @@ fn check(text: &str, cfg: &LuaFormatConfig, want: &str) -> (Vec<Viol>, bool) {
             let i = c1.tokens.iter().zip(c2.tokens.iter()).take_while(|(a, b)| a.text == b.text).count();
             out.push(Viol {
                 prop: "C05",
-                signature: sig,
+                class: sig,
+                construct: String::new(),
                 what: format!(
                     "the output has the same characters but different tokens (two tokens glued or one split): source tokens {:?} {:?}, output token {:?}",
                     c1.tokens.get(i).map(|t| t.text.clone()), c1.tokens.get(i + 1).map(|t| t.text.clone()), c2.tokens.get(i).map(|t| t.text.clone())
@@ -64,9 +69,11 @@ fn check(text: &str, cfg: &LuaFormatConfig, want: &str) -> (Vec<Viol>, bool) {
         } else if tree2.has_syntax_errors() {
             let e = tree2.get_errors().iter().find(|e| e.kind == emmylua_parser::LuaParseErrorKind::SyntaxError);
             let msg = e.map(|e| e.message.clone()).unwrap_or_default();
+            let ctx = e.map(|e| context_at(&tree2, u32::from(e.range.start()) as usize)).unwrap_or_default();
             out.push(Viol {
                 prop: "C05",
-                signature: format!("output-syntax-error:{}", msg_class(&msg)),
+                class: format!("output-syntax-error:{}", msg_class(&msg)),
+                construct: construct_of(&ctx),
                 what: format!("formatted output has a syntax error: {msg}"),
             });
         } else {
@@ -89,9 +96,11 @@ fn check(text: &str, cfg: &LuaFormatConfig, want: &str) -> (Vec<Viol>, bool) {
                     (None, Some(b)) => ("added", b.kind.clone()),
                     (None, None) => ("changed", "?".into()),
                 };
+                let around: Vec<String> = (i.saturating_sub(1)..=i).filter_map(|j| c1.tokens.get(j).map(|t| t.kind.clone())).collect();
                 out.push(Viol {
                     prop: "C05",
-                    signature: format!("code-token-{class}:{kind}"),
+                    class: format!("code-token-{class}:{kind}"),
+                    construct: around.join(","),
                     what: format!(
                         "code token #{i} differs after formatting: source {:?}, output {:?}",
                         a.map(|t| t.text.clone()),
@@ -115,13 +124,17 @@ fn check(text: &str, cfg: &LuaFormatConfig, want: &str) -> (Vec<Viol>, bool) {
                     }
                     k -= n;
                 }
-                let (ctx, line) = match which {
-                    Some(c) => (reduce_ctx(&comment_context(&c.raw, k)), nth_nonblank_line(&c.raw, k)),
-                    None => ("after-last-comment".to_string(), String::new()),
+                let (ctx, full, line) = match which {
+                    Some(c) => {
+                        let chain = nonblank_context(&c.raw, k);
+                        (reduce_ctx(&chain), chain, nth_nonblank_line(&c.raw, k))
+                    }
+                    None => ("after-last-comment".to_string(), String::new(), String::new()),
                 };
                 out.push(Viol {
                     prop: "C05",
-                    signature: format!("comment-text:{ctx}"),
+                    class: format!("comment-text:{ctx}"),
+                    construct: construct_of(&full),
                     what: format!("comment text changed at {:?} (source comments {:?}, output comments {:?})", line,
                                   clip(&c1.comments.iter().map(|c| c.raw.clone()).collect::<Vec<_>>().join("\u{23ce}")),
                                   clip(&c2.comments.iter().map(|c| c.raw.clone()).collect::<Vec<_>>().join("\u{23ce}"))),
@@ -137,11 +150,12 @@ fn check(text: &str, cfg: &LuaFormatConfig, want: &str) -> (Vec<Viol>, bool) {
                     let k = s1.iter().zip(s2.iter()).take_while(|(x, y)| x == y).count();
                     out.push(Viol {
                         prop: "C05",
-                        signature: format!(
+                        class: format!(
                             "comment-structure:{}->{}",
                             kind_class(s1.get(k).map(|s| s.as_str()).unwrap_or("end")),
                             kind_class(s2.get(k).map(|s| s.as_str()).unwrap_or("end"))
                         ),
+                        construct: format!("{}->{}", s1.get(k).map(|s| s.as_str()).unwrap_or("end"), s2.get(k).map(|s| s.as_str()).unwrap_or("end")),
                         what: format!("comments parse to a different structure (source comments {:?}, output comments {:?})",
                                       clip(&c1.comments.iter().map(|c| c.raw.clone()).collect::<Vec<_>>().join("\u{23ce}")),
                                       clip(&c2.comments.iter().map(|c| c.raw.clone()).collect::<Vec<_>>().join("\u{23ce}"))),
@@ -152,7 +166,7 @@ fn check(text: &str, cfg: &LuaFormatConfig, want: &str) -> (Vec<Viol>, bool) {
     }
     if want != "C05" {
         match fmt(&o1, cfg) {
-            Err(e) => out.push(Viol { prop: "C06", signature: "format-panic-pass2".into(), what: format!("second pass panicked: {e}") }),
+            Err(e) => out.push(Viol { prop: "C06", class: "format-panic-pass2".into(), construct: msg_class(&e), what: format!("second pass panicked: {e}") }),
             Ok(o2) => {
                 if o2 != o1 {
                     let k = o1.bytes().zip(o2.bytes()).take_while(|(a, b)| a == b).count();
@@ -160,7 +174,8 @@ fn check(text: &str, cfg: &LuaFormatConfig, want: &str) -> (Vec<Viol>, bool) {
                     let (l1, l2) = first_diff_line(&o1, &o2);
                     out.push(Viol {
                         prop: "C06",
-                        signature: format!("not-idempotent:{}:{}", idem_where(&chain), idem_how(&o1, &o2)),
+                        class: format!("not-idempotent:{}:{}", idem_where(&chain), idem_how(&o1, &o2)),
+                        construct: construct_of(&chain),
                         what: format!("second pass changes the output: {:?} becomes {:?}", l1, l2),
                     });
                 }
@@ -168,6 +183,10 @@ fn check(text: &str, cfg: &LuaFormatConfig, want: &str) -> (Vec<Viol>, bool) {
         }
     }
     (out, valid)
+}
+
+fn clip_text(s: &str) -> String {
+    s.chars().take(4000).collect()
 }
 
 fn clip(s: &str) -> String {
@@ -286,52 +305,6 @@ fn first_diff_line(a: &str, b: &str) -> (String, String) {
     (String::new(), String::new())
 }
 
-/// token kind < parent kinds at the k-th non-blank character of a comment's text
-fn comment_context(raw: &str, k: usize) -> String {
-    let mut seen = 0usize;
-    let mut off = raw.len();
-    for (i, c) in raw.char_indices() {
-        if !is_blank(c) {
-            if seen == k {
-                off = i;
-                break;
-            }
-            seen += 1;
-        }
-    }
-    let t = parse(raw);
-    context_at(&t, off)
-}
-
-/// delta-debugging: remove pieces while the violation with this signature stays (an input that no longer
-/// parses has no violation of that signature, so validity is kept automatically)
-fn ddmin(mut pieces: Vec<String>, still: &dyn Fn(&[String]) -> bool, budget: &mut usize) -> Vec<String> {
-    let mut chunk = (pieces.len() / 2).max(1);
-    loop {
-        let mut i = 0;
-        let mut progressed = false;
-        while i < pieces.len() && *budget > 0 {
-            let end = (i + chunk).min(pieces.len());
-            let mut cand = pieces.clone();
-            cand.drain(i..end);
-            *budget -= 1;
-            if !cand.is_empty() && still(&cand) {
-                pieces = cand;
-                progressed = true;
-            } else {
-                i += chunk;
-            }
-        }
-        if *budget == 0 || (chunk == 1 && !progressed) {
-            break;
-        }
-        if !progressed {
-            chunk = (chunk / 2).max(1);
-        }
-    }
-    pieces
-}
-
 /// words with their trailing whitespace
 fn split_words(text: &str) -> Vec<String> {
     let mut out = Vec::new();
@@ -351,16 +324,29 @@ fn split_words(text: &str) -> Vec<String> {
     out
 }
 
-fn shrink(text: &str, cfg: &LuaFormatConfig, sig: &str, want: &str) -> String {
+/// the violations of (text, cfg json) as (class, construct) pairs of one property
+fn classes(text: &str, cfgj: &Value, want: &str, prop: &str) -> Vec<(String, String)> {
+    let cfg = cfg_from_json(cfgj);
+    check(text, &cfg, want).0.into_iter().filter(|v| v.prop == prop).map(|v| (v.class, v.construct)).collect()
+}
+
+/// minimal option set + signature of one violation
+fn narrow(text: &str, cfgj: &Value, v: &Viol, want: &str) -> (Value, String) {
+    let prop = v.prop;
+    narrow_signature(cfgj, &v.class, &|c: &Value| classes(text, c, want, prop))
+}
+
+/// shrink the text under the minimal configuration, keeping the class (and, under the default configuration, the construct)
+fn shrink(text: &str, cfgmin: &Value, v: &Viol, want: &str, is_default: bool) -> String {
     let still = |ls: &[String]| -> bool {
         let t: String = ls.concat();
-        check(&t, cfg, want).0.iter().any(|v| v.signature == sig)
+        classes(&t, cfgmin, want, v.prop).iter().any(|(k, c)| *k == v.class && (!is_default || *c == v.construct))
     };
-    let mut budget = 1500usize;
+    let mut budget = 900usize;
     let lines: Vec<String> = text.split_inclusive('\n').map(|s| s.to_string()).collect();
-    let lines = ddmin(lines, &still, &mut budget);
+    let lines = ddmin(lines, &still, &mut budget, false);
     let words = split_words(&lines.concat());
-    let words = ddmin(words, &still, &mut budget);
+    let words = ddmin(words, &still, &mut budget, false);
     words.concat()
 }
 
@@ -522,10 +508,12 @@ fn inputs(rng: &mut Rng, n: usize, maxstat: usize) -> Vec<Input> {
     let base = v.len();
     while v.len() < base + n + stds.len() {
         i += 1;
-        let cfg = gen_cfg(rng);
+        // at least half of the cases run under the default configuration (what users run)
+        let cfg = if rng.chance(1, 2) { json!({}) } else { gen_cfg(rng) };
         match i % 8 {
             0 if !stds.is_empty() => {
                 let (name, text) = &stds[rng.below(stds.len())];
+                let cfg = if nondefault_opts(&cfg).is_empty() { gen_cfg(rng) } else { cfg };
                 v.push(Input { origin: "std-cfg", name: name.clone(), text: text.clone(), cfg });
             }
             1 | 2 | 3 if !stds.is_empty() => {
@@ -630,10 +618,17 @@ fn main() {
         "search" => {
             let want = args.str("prop", "both");
             let maxstat = args.usize("maxstat", 12);
+            // signatures already recorded as findings: reported without shrinking (the witness is in the corpus)
+            let known: HashSet<String> = std::fs::read_to_string(args.str("known", ""))
+                .ok()
+                .and_then(|t| serde_json::from_str::<Vec<String>>(&t).ok())
+                .map(|v| v.into_iter().collect())
+                .unwrap_or_default();
             let ins = inputs(&mut rng, n, maxstat);
             let mut dist: BTreeMap<String, usize> = BTreeMap::new();
             let mut distinct = HashSet::new();
             let mut valid_n = 0usize;
+            let mut default_n = 0usize;
             let mut reported: HashSet<String> = HashSet::new();
             let mut nviol = 0usize;
             for inp in &ins {
@@ -643,6 +638,9 @@ fn main() {
                 if valid {
                     valid_n += 1;
                 }
+                if nondefault_opts(&inp.cfg).is_empty() {
+                    default_n += 1;
+                }
                 if inp.text.len() > 20 {
                     distinct.insert((inp.text.clone(), inp.cfg.to_string()));
                 }
@@ -651,23 +649,38 @@ fn main() {
                         continue;
                     }
                     nviol += 1;
-                    if !reported.insert(format!("{}|{}", v.prop, v.signature)) {
-                        continue; // one (shrunk) witness per signature
+                    // the cause: minimal set of non-default options (or the construct, under the default configuration)
+                    let (cfgmin, sig) = narrow(&inp.text, &inp.cfg, &v, &want);
+                    if !reported.insert(format!("{}|{}", v.prop, sig)) {
+                        continue;
                     }
-                    let small = shrink(&inp.text, &cfg, &v.signature, &want);
-                    let (v2, _) = check(&small, &cfg, &want);
-                    let what = v2.iter().find(|x| x.signature == v.signature).map(|x| x.what.clone()).unwrap_or(v.what.clone());
+                    let is_default = sig.starts_with("default:");
+                    let (text, what) = if known.contains(&sig) {
+                        (clip_text(&inp.text), v.what.clone())
+                    } else {
+                        let v0 = if is_default {
+                            // class and construct as they are under the default configuration
+                            classes(&inp.text, &cfgmin, &want, v.prop).into_iter().find(|(k, _)| *k == v.class)
+                                .map(|(k, c)| Viol { prop: v.prop, class: k, construct: c, what: v.what.clone() }).unwrap_or(v.clone())
+                        } else {
+                            v.clone()
+                        };
+                        let small = shrink(&inp.text, &cfgmin, &v0, &want, is_default);
+                        let what = check(&small, &cfg_from_json(&cfgmin), &want).0.iter().find(|x| x.prop == v.prop && x.class == v.class)
+                            .map(|x| x.what.clone()).unwrap_or(v.what.clone());
+                        (small, what)
+                    };
                     println!(
                         "{}",
-                        json!({"prop": v.prop, "signature": v.signature, "what": what, "origin": inp.origin, "name": inp.name,
-                               "text": small, "cfg": inp.cfg, "full_len": inp.text.len()})
+                        json!({"prop": v.prop, "signature": sig, "what": what, "origin": inp.origin, "name": inp.name,
+                               "text": text, "cfg": cfgmin, "full_len": inp.text.len()})
                     );
                 }
             }
             println!(
                 "{}",
-                json!({"summary": {"cases": ins.len(), "valid": valid_n, "distinct_nontrivial": distinct.len(),
-                                   "violating_cases": nviol, "by_origin": dist}})
+                json!({"summary": {"cases": ins.len(), "valid": valid_n, "default_configuration_cases": default_n, "distinct_nontrivial": distinct.len(),
+                                   "violating_cases": nviol, "distinct_signatures": reported.len(), "by_origin": dist}})
             );
         }
         "one" => {
@@ -680,7 +693,11 @@ fn main() {
             let o2 = fmt(&o1, &cfg).unwrap_or_else(|e| format!("<panic {e}>"));
             println!("{}", json!({"valid": valid, "out": o1, "pass2_same": o1 == o2, "case": case_json(&Input{origin:"one", name:"one".into(), text: text.clone(), cfg: cfgj.clone()})}));
             for v in viols {
-                println!("{}", json!({"prop": v.prop, "signature": v.signature, "what": v.what, "text": text, "cfg": cfgj}));
+                if want != "both" && v.prop != want {
+                    continue;
+                }
+                let (cfgmin, sig) = narrow(&text, &cfgj, &v, &want);
+                println!("{}", json!({"prop": v.prop, "signature": sig, "what": v.what, "text": text, "cfg": cfgmin}));
             }
             if args.flag("show") {
                 eprintln!("--- pass 1\n{o1}--- pass 2\n{o2}");
